@@ -41,7 +41,8 @@ def _mol(draw, name):
         if draw(st.booleans()):
             tag = draw(st.sampled_from(TAGS))
             kind = draw(st.sampled_from(["ifdef", "ifndef"]))
-            lines += [f"#{kind} {tag}", f"1 {n} 1 0.9 50", "#endif"]
+            sep = draw(st.sampled_from([" ", " ", "\t"]))
+            lines += [f"#{kind}{sep}{tag}", f"1 {n} 1 0.9 50", "#endif"]
     if n > 2 and draw(st.booleans()):
         lines.append("[ angles ]")
         lines.append(f"1 2 3 2 {draw(st.integers(90, 180))} 25")
@@ -162,6 +163,11 @@ def _strategy(draw):
         lo = 2 if i == 0 else 0
         pos = draw(st.integers(min(lo, first_mol), first_mol))
         items.insert(pos, {"k": "include", "path": paths[j], "cond": cond})
+    # white space between the pragma word and its macro: blanks and tabs
+    for items in files.values():
+        for it in items:
+            if it.get("cond"):
+                it["cond"]["sep"] = draw(st.sampled_from([" ", " ", "  ", "\t", " \t"]))
     spec = {"files": files, "paths": paths, "path_mode": draw(st.sampled_from(["abs", "rel", "rel_sub"])),
             "trivia_seed": draw(st.integers(0, 10**6)), "rng": draw(st.integers(0, 2**31 - 1))}
     # molecules section from the molecule types that are active in the flattened reading
@@ -291,7 +297,7 @@ def render_file(spec, path, rnd, main_tail):
                 else:
                     emit(f'#include "{rel_include(path, branch["path"])}"')
             if cond:
-                emit(f"#{cond['kind']} {cond['tag']}")
+                emit(f"#{cond['kind']}{cond.get('sep', ' ')}{cond['tag']}")
                 one(it)
                 if cond.get("else"):
                     emit("#else")
